@@ -3,6 +3,10 @@
 import json, os
 V = os.path.dirname(os.path.abspath(__file__))
 CHECKS = {
+ "C04": dict(
+  text="Randomised search (rapid) over server+client programs generated from one spec and compiled into one program (the generated client talks to the generated server through an in-process RoundTripper; handlers, client methods and parameter structs are driven by reflection): typed parameter values given to the client must equal the Params seen by the server handler; for each response plan (declared 2xx, declared other code, default, undeclared code, with payload and scalar/array headers) the client must return the typed result, typed error or generic API error carrying equal content. Three listed known findings.",
+  note="The handler answers with a raw responder, so the generated server-side WriteResponse is not exercised; values are spec-conforming and representable in the collectionFormat; file parameters are not generated.",
+  tech="property-based testing (rapid): program generation + round-trip oracle across generated client and server"),
  "C06": dict(
   text="Randomised search (rapid) over server programs with 1-4 security definitions, global and per-operation requirements (absent, [], AND/OR lists with scope subsets, optional authentication) x credential sets (absent / valid / invalid per transport, random granted scopes); generated with the swagger binary built from the tree, compiled with a reflection harness installing convention-based authenticators, driven in-process. Oracle: reference evaluator of the effective requirement (handler reached, 401/403, principal identity, no authenticator on open operations).",
   note="Credentials are modelled per transport (all basic schemes share the Authorization header, all oauth2 schemes the bearer token); optional authentication with a refused credential is unspecified.",
